@@ -1,6 +1,6 @@
 # C15 spec (see tools/props.py)
 SPEC = {
-        "ready": False,
+        "ready": True,
         "sources": ["c15.cpp", "c15_b.cpp", "c15_c.cpp"], "lib": [],
         "technique": "exhaustive enumeration of integer-lattice lines, planes, spheres, triangles and matrices against exact rational (integer numerator/denominator) oracles",
         "level_text": "Every line, plane, sphere, triangle and vector pair of the stated integer lattices and direction alphabet is run through the real Line3/Plane3/Sphere3/LineAlgo/VecAlgo code for float and double; because the data are integers the geometric definition gives a rational answer, which is evaluated exactly and compared under an a-priori rounding bound; nearly parallel and parallel line pairs are swept over 10^-j perturbations down to exact parallelism.",
